@@ -545,7 +545,7 @@ func (r *Reader) ReadMessage(codec Codec) (messageInstance any, err error) {
 		}
 	} else {
 		// 外部消息反序列化
-		messageInstance, err = codec.Decode(messageData)
+		messageInstance, err = DecodeOutsideMessage(codec, messageName, messageData)
 		if err != nil {
 			return
 		}
